@@ -579,20 +579,38 @@ pub fn ulp(x: f64) -> f64 {
     }
 }
 
-/// error of `v` against the exact rational p/q (q > 0), in absolute terms, computed in
-/// double-double style: accurate to ~1e-16 relative of the *error*, given v is near p/q.
+/// |v - p/q| for the exact rational p/q (0 < q < 2^63). The quotient is split as hi (f64) + a small
+/// integer + the fraction r/q, the latter computed as a scaled integer with ~120 significant bits and
+/// handed over as two f64 pieces; the pieces are subtracted from v one by one (exact by Sterbenz when v is
+/// near p/q), so the result is accurate to far below one ulp of v whatever the magnitude.
 pub fn abs_err_vs_rational(v: f64, p: i128, q: i128) -> f64 {
-    let a = p.div_euclid(q);
-    let r = p.rem_euclid(q);
-    let hi = a as f64; // rounded
-    let lo = (a - hi as i128) as f64 + (r as f64) / (q as f64);
-    ((v - hi) - lo).abs()
+    let a = p / q; // truncated: remainder has the sign of p, so no cancellation between hi and the fraction
+    let r = p % q;
+    let hi = a as f64;
+    let d0 = (a - hi as i128) as f64;
+    let ru = r.unsigned_abs();
+    let (mut f1, mut f2) = if ru == 0 {
+        (0.0, 0.0)
+    } else {
+        let k = ru.leading_zeros() - 1; // ru << k < 2^127
+        let fi: u128 = (ru << k) / q as u128; // fraction * 2^k
+        let g1 = fi as f64;
+        let rem = fi as i128 - g1 as i128;
+        let g2 = rem as f64;
+        let sc = 2f64.powi(-(k as i32));
+        (g1 * sc, g2 * sc)
+    };
+    if r < 0 {
+        f1 = -f1;
+        f2 = -f2;
+    }
+    ((((v - hi) - d0) - f1) - f2).abs()
 }
 
-/// nearest f64 to p/q
+/// nearest f64 to p/q (to within ~1e-19 relative)
 pub fn rational_to_f64(p: i128, q: i128) -> f64 {
-    let a = p.div_euclid(q);
-    let r = p.rem_euclid(q);
+    let a = p / q;
+    let r = p % q;
     let hi = a as f64;
     let lo = (a - hi as i128) as f64 + (r as f64) / (q as f64);
     hi + lo
@@ -709,6 +727,17 @@ pub fn self_test() -> Result<(), String> {
     }
     if (rational_to_f64(1, 3) - 1.0 / 3.0).abs() > 1e-17 {
         return Err("rational_to_f64".into());
+    }
+    // abs_err_vs_rational: exact cases and a tiny negative fraction
+    if abs_err_vs_rational(0.5, 1, 2) != 0.0 || abs_err_vs_rational(-0.25, -1, 4) != 0.0 || abs_err_vs_rational(1e20, 100_000_000_000_000_000_000, 1) != 0.0 {
+        return Err("abs_err_vs_rational exact cases".into());
+    }
+    let tiny = -1.0 / 86_400_000_000_000.0_f64;
+    if abs_err_vs_rational(tiny, -1, 86_400_000_000_000) > ulp(tiny) {
+        return Err("abs_err_vs_rational tiny fraction".into());
+    }
+    if (abs_err_vs_rational(1.0 / 3.0, 1, 3) - 1.850371707708594e-17).abs() > 1e-30 {
+        return Err(format!("abs_err_vs_rational 1/3: {:e}", abs_err_vs_rational(1.0 / 3.0, 1, 3)));
     }
     Ok(())
 }
